@@ -342,6 +342,15 @@ def _bind_one(
         dsk = HighLevelGraph.from_collections(hlg_name, dsk)
         layers_to_clone = {hlg_name}
 
+    if omit_keys:
+        # assume_layers=False: a layer all of whose keys belong to the omit collections
+        # is left alone as a whole, exactly like the top-level layers of omit are when
+        # assume_layers=True (Blockwise.clone would rename it unconditionally)
+        omit_layers = omit_layers | {
+            name
+            for name, layer in dsk.layers.items()
+            if layer.get_output_keys() <= omit_keys
+        }
     clone_keys = dsk.get_all_external_keys() - omit_keys
     for layer_name in omit_layers:
         try:
